@@ -2,7 +2,7 @@
 
 use crate::driver::Cfg;
 use crate::engine::Plan;
-use crate::histx::{add_io_reverse, add_quiet, enum_commit_histories, sort_by_bound};
+use crate::histx::{add_io_reverse, add_pool_poison, add_quiet, enum_commit_histories, sort_by_bound};
 use serde_json::{json, Value};
 
 fn w(k: u64, s: u64) -> Value {
@@ -201,6 +201,7 @@ pub fn plan_c09(thorough: bool) -> Plan {
     }
     add_quiet(&mut cases, if thorough { 1 } else { 5 });
     add_io_reverse(&mut cases, if thorough { 5 } else { 15 });
+    add_pool_poison(&mut cases, if thorough { 6 } else { 25 }, 0xA5);
     cases.extend(writeless_overlay_family());
     sort_by_bound(&mut cases);
     let mut p = Plan::new(
@@ -1131,6 +1132,7 @@ pub fn plan_c05(thorough: bool) -> Plan {
     cases.extend(macro_overlay_chains("proofs", if thorough { 3 } else { 2 }));
     add_quiet(&mut cases, if thorough { 1 } else { 2 });
     add_io_reverse(&mut cases, if thorough { 2 } else { 3 });
+    add_pool_poison(&mut cases, if thorough { 3 } else { 7 }, 0xA5);
     sort_by_bound(&mut cases);
     let mut p = Plan::new(
         cases,
